@@ -25,7 +25,8 @@ Everything is on the harness side, nothing in redun is changed:
 
 The workload is the one Backend.tla models: parent(1) -> child(1) -> grand(11 | 111), parent has
 check_valid="shallow"; every task has two versions (an edit), chosen so that every edit of child
-or grand changes the final value.
+or grand changes the final value.  Variant 1 declares child prov=False (inherited by grand): the two
+lower jobs record nothing and record_call_node(parent) takes its "children not recorded" path.
 """
 
 from __future__ import annotations
